@@ -423,7 +423,7 @@ pub fn run_c14(run: &Run) {
     {
         let mut items: Vec<(String, String, Vec<u8>, bool)> = vec![]; // name, text, grounded (declaration order), bridged
         for k in 0..(if quick { 12u64 } else { 120 }) {
-            let l = crate::mid::sparse(run.seed * 1000 + k);
+            let l = crate::mid::sparse(run.seed * 1000 + k * 7);
             items.push((format!("sparse #{}", k), l.text(None, ("\n", "", "")), l.grounded(), k % 2 == 1));
         }
         for k in 0..(if quick { 64u64 } else { 640 }) {
